@@ -438,7 +438,7 @@ impl Check for C06 {
     fn cases(&self, tier: Tier) -> u64 {
         match tier {
             Tier::Quick => 40_000,
-            Tier::Thorough => 3_000_000,
+            Tier::Thorough => 1_000_000,
         }
     }
     fn both_profiles(&self) -> bool {
